@@ -3,6 +3,7 @@ package checks
 import (
 	"bytes"
 	"context"
+	"errors"
 	"fmt"
 	"sync"
 	"time"
@@ -265,6 +266,22 @@ func c03Exec(run *ev.Run, c ev.Case) {
 					_, err = sess.GetSDRRepositoryInfo(ctx)
 				case "reserve":
 					_, err = sess.ReserveSDRRepository(ctx)
+				case "sensorreading":
+					// through a sensor reader built from a Full Sensor Record that names the sensor's
+					// owner (any IPMB address, any LUN): over a LAN session the request still goes to the BMC
+					sc := g.Cmd.(*ipmi.GetSensorReadingCmd)
+					rec := &ipmi.FullSensorRecord{}
+					rec.OwnerAddress, rec.OwnerLUN, rec.Number = ipmi.Address(r.Intn(256)), sc.OwnerLUN, sc.Req.Number
+					rec.AnalogDataFormat, rec.M = ipmi.AnalogDataFormatUnsigned, 1
+					rd, rerr := bmc.NewSensorReader(rec)
+					if rerr != nil {
+						viaMethod = false
+						break
+					}
+					_, err = rd.Read(ctx, sess)
+					if errors.Is(err, bmc.ErrSensorReadingUnavailable) || errors.Is(err, bmc.ErrSensorScanningDisabled) {
+						err = nil // the (random) response body may carry either flag
+					}
 				case "authcaps":
 					_, err = sess.GetChannelAuthenticationCapabilities(ctx, &g.Cmd.(*ipmi.GetChannelAuthenticationCapabilitiesCmd).Req)
 				default:
